@@ -30,6 +30,7 @@ Theorem C04_rekey_ok : forall frepr w ci cf,
   old <> new ->
   js <> [] ->
   (forall j, In j js -> (j < length (w_hs w))%nat /\ h_cell (getH w j) = Some ci /\ h_s (getH w j) = h_s h0) ->
+  getCF w ci = src ++ [SPF] ->
   get (w_fs w) (src ++ [SPF]) = Some (File cf) ->
   get (w_fs w) (src ++ [SPT]) = None -> get (w_fs w) (src ++ [TMPPFX ++ SPF]) = None ->
   get (w_fs w) src = Some Dir -> get (w_fs w) wsd = Some Dir ->
@@ -56,6 +57,7 @@ Theorem C04_rekey_conflict : forall frepr w ci cf,
   let new := calc_id frepr (c_data c) in
   let wsd := wsp (getS w (h_s h0)) in
   old <> new ->
+  getCF w ci = wsd ++ [old; SPF] ->
   get (w_fs w) (wsd ++ [old; SPF]) = Some (File cf) ->
   get (w_fs w) (wsd ++ [old; SPT]) = None ->
   get (w_fs w) (wsd ++ [old]) = Some Dir -> get (w_fs w) wsd = Some Dir ->
@@ -230,6 +232,7 @@ Theorem C04_model_holds_partial : forall frepr w ci cf,
   let new := calc_id frepr (c_data c) in
   let wsd := wsp (getS w (h_s h0)) in
   old <> new ->
+  getCF w ci = wsd ++ [old; SPF] ->
   get (w_fs w) (wsd ++ [old; SPF]) = Some (File cf) ->
   get (w_fs w) (wsd ++ [old; SPT]) = None ->
   get (w_fs w) (wsd ++ [old]) = Some Dir -> get (w_fs w) wsd = Some Dir ->
@@ -257,6 +260,7 @@ Example C04_example_rekey_ok_hyps :
   c_jobs c = [0; 1]%nat /\ h_id (getH w 0) = calc_id wfr ex_old /\ calc_id wfr (c_data c) = calc_id wfr ex_new /\
   calc_id wfr ex_old <> calc_id wfr ex_new /\
   h_cell (getH w 0) = Some 0%nat /\ h_cell (getH w 1) = Some 0%nat /\ length (w_hs w) = 2%nat /\
+  getCF w 0 = src ++ [SPF] /\
   (exists cf, get (w_fs w) (src ++ [SPF]) = Some (File cf)) /\
   get (w_fs w) (src ++ [SPT]) = None /\ get (w_fs w) (src ++ [TMPPFX ++ SPF]) = None /\
   get (w_fs w) src = Some Dir /\ get (w_fs w) wsd = Some Dir /\ get (w_fs w) dst = None /\
@@ -274,6 +278,7 @@ Example C04_example_rekey_conflict_hyps :
   let wsd := wA ++ [WS] in
   let old := calc_id wfr ex_old in let new := calc_id wfr ex_new in
   h_id (getH w (hd 0%nat (c_jobs (getC w 0)))) = old /\ calc_id wfr (c_data (getC w 0)) = new /\ old <> new /\
+  getCF w 0 = wsd ++ [old; SPF] /\
   (exists cf, get (w_fs w) (wsd ++ [old; SPF]) = Some (File cf)) /\
   get (w_fs w) (wsd ++ [old; SPT]) = None /\ get (w_fs w) (wsd ++ [old]) = Some Dir /\
   get (w_fs w) wsd = Some Dir /\ get (w_fs w) (wsd ++ [new]) = Some Dir /\
